@@ -38,6 +38,7 @@ func propC15(w *World, r *Report) {
 	RunLookupZero(w, r)
 	r.Floor("cursoradvance", 1)
 	RunRecordEffect(w, r)
+	RunKernAbsent(w, r)
 	RunLigPrefix(w, r)
 	RunLigCondition(w, r)
 	RunKernPairFirst(w, r)
@@ -984,4 +985,69 @@ func RunKernPairFirst(w *World, r *Report) {
 	default:
 		r.OK("kernpairfirst", key, w.Pos(rd.Pos()), fname+" is left nil")
 	}
+}
+
+// RunKernAbsent: a pair that no earlier subtable listed has kerning value 0.
+// Whether a record of a "minimum", "override" or accumulating subtable
+// changes the result therefore must not depend on the pair being present in
+// the map already: no update of the result map in kern.Read is
+// control-dependent on the presence flag of a lookup in that map.
+func RunKernAbsent(w *World, r *Report) {
+	r.Rule("kernabsent: in kern.Read no update of the result map is control-dependent on the presence flag (the second result) of a lookup in that same map: a pair that no earlier subtable listed counts as kerning value 0, so a minimum or override record applies to it as well")
+	fn := w.Func("kern.Read")
+	if fn == nil {
+		r.Fatal("kern.Read does not resolve")
+		return
+	}
+	n := 0
+	for _, b := range fn.Blocks {
+		for _, in := range b.Instrs {
+			mu, ok := in.(*ssa.MapUpdate)
+			if !ok {
+				continue
+			}
+			n++
+			key := r.MkKey("kernabsent", "kern.Read", "update of the result map")
+			bad := ""
+			for _, g := range guardsOf(b) {
+				for v := range backSlice(g.cond) {
+					ex, ok := v.(*ssa.Extract)
+					if !ok || ex.Index != 1 {
+						continue
+					}
+					if lk, ok := ex.Tuple.(*ssa.Lookup); ok && lk.CommaOk && sameMapValue(lk.X, mu.Map) {
+						bad = w.Pos(lk.Pos())
+					}
+				}
+			}
+			if bad == "" {
+				r.OK("kernabsent", key, w.Pos(mu.Pos()), "the update does not depend on the pair being present already")
+			} else {
+				r.Fail("kernabsent", key, w.Pos(mu.Pos()), "this update of the kerning map happens only when the pair is already present (presence flag of the lookup at "+bad+"): a pair listed only in this subtable keeps kerning 0 although the record says otherwise (a minimum value above 0 is not applied)", nil)
+			}
+		}
+	}
+	if n == 0 {
+		r.Fail("kernabsent", r.MkKey("kernabsent", "kern.Read", "update of the result map"), w.Pos(fn.Pos()), "kern.Read never updates a map", nil)
+	}
+	r.Floor("kernabsent", 3)
+}
+
+func sameMapValue(a, b ssa.Value) bool {
+	strip := func(v ssa.Value) ssa.Value {
+		for {
+			switch x := v.(type) {
+			case *ssa.ChangeType:
+				v = x.X
+			case *ssa.Phi:
+				if len(x.Edges) == 0 {
+					return v
+				}
+				v = x.Edges[0]
+			default:
+				return v
+			}
+		}
+	}
+	return strip(a) == strip(b)
 }
